@@ -244,6 +244,20 @@ func imageHostiles(r *mon.Run, img []byte, baseName string, idx int) []hostile {
 		sweep32(img, s.HdrOff+24, "Section.PointerToRelocations", baseName, nil, &out)
 		sweep16(img, s.HdrOff+32, "Section.NumberOfRelocations", baseName, &out)
 	}
+	// a section grown to the end of the file: stays inside the file, overlaps everything behind it,
+	// and makes the sum of section sizes exceed the file
+	for i, s := range im.Sections {
+		if i > 3 || s.PtrRaw == 0 || int(s.PtrRaw) >= len(img) {
+			continue
+		}
+		m := append([]byte(nil), img...)
+		binary.LittleEndian.PutUint32(m[s.HdrOff+16:], uint32(len(img))-s.PtrRaw)
+		out = append(out, hostile{m, "section-grown-to-eof", fmt.Sprint(i), "", baseName})
+		m2 := append([]byte(nil), img...)
+		binary.LittleEndian.PutUint32(m2[s.HdrOff+20:], uint32(im.SizeOfHeaders))
+		binary.LittleEndian.PutUint32(m2[s.HdrOff+16:], uint32(len(img)-im.SizeOfHeaders))
+		out = append(out, hostile{m2, "section-covering-file", fmt.Sprint(i), "", baseName})
+	}
 	// overlapping sections: second section points into the first
 	if len(im.Sections) >= 2 {
 		m := append([]byte(nil), img...)
@@ -347,7 +361,7 @@ const (
 	allocPerByte = 16
 	allocBase    = 512 << 10
 	cpuBaseUs    = 2_000_000
-	cpuPerByteUs = 20
+	cpuPerByteUs = 2
 	// trusted standard-library behaviour inside authenticode.Parse (debug/pe + internal/saferio chunks)
 	parseExtraAlloc = 32 << 20
 )
@@ -493,6 +507,55 @@ func checkC13(r *mon.Run) {
 		}
 		for _, h := range blobHostiles(r, s.Blob, s.Producer, si) {
 			all = append(all, sess{"p7.session", h, p})
+		}
+	}
+	// large structured inputs: time must stay linear in the size
+	if len(seeds) > 0 {
+		for _, nAttr := range []int{5000, 40000} {
+			if t, err := loadP7Tree(seeds[0].Blob); err == nil {
+				if sp := t.signer(0); sp != nil && sp.attrs != nil {
+					for k := 0; k < nAttr; k++ {
+						oid := refder.OID(1, 3, 6, 1, 4, 1, 99999, 2, k)
+						sp.attrs.Kids = append(sp.attrs.Kids, &refder.Tree{Tag: 0x30, Kids: []*refder.Tree{{Tag: 0x06, Prim: oid}, {Tag: 0x31, Kids: []*refder.Tree{{Tag: 0x05, Prim: []byte{}}}}}})
+					}
+					p := map[string]string{"foreign": fmt.Sprintf("%x", foreign.Raw)}
+					if seeds[0].Right != nil {
+						p["cert"] = fmt.Sprintf("%x", seeds[0].Right.Raw)
+					}
+					all = append(all, sess{"p7.session", hostile{t.root.Encode(), "many-attributes", fmt.Sprint(nAttr), "", seeds[0].Producer}, p})
+				}
+			}
+			if t, err := loadP7Tree(seeds[0].Blob); err == nil && len(t.signers.Kids) > 0 {
+				one := t.signers.Kids[0]
+				for k := 0; k < nAttr/10; k++ {
+					t.signers.Kids = append(t.signers.Kids, one.Clone())
+				}
+				all = append(all, sess{"p7.session", hostile{t.root.Encode(), "many-signer-infos", fmt.Sprint(nAttr / 10), "", seeds[0].Producer}, map[string]string{"cert": fmt.Sprintf("%x", foreign.Raw)}})
+			}
+		}
+	}
+	{
+		// an image with very many (empty) sections, and one with very many certificate-table entries
+		rng := mon.Rand(r.Seed, "C13", "manysec")
+		l := gen.PELayout{PE32Plus: true, Lfanew: 0x80, NumRva: 16, NSec: 12, Order: "file", SecSizes: make([]int, 12)}
+		for k := range l.SecSizes {
+			l.SecSizes[k] = 64
+		}
+		b, _ := gen.BuildPE(rng, l)
+		if im, err := refpe.ParseHeaders(b); err == nil {
+			// certificate table made of thousands of minimal entries
+			tab := []byte{}
+			for k := 0; k < 20000; k++ {
+				tab = append(tab, 8, 0, 0, 0, 0, 2, 2, 0)
+			}
+			for len(b)%8 != 0 {
+				b = append(b, 0)
+			}
+			m := append([]byte(nil), b...)
+			binary.LittleEndian.PutUint32(m[im.CertEntryOff:], uint32(len(m)))
+			binary.LittleEndian.PutUint32(m[im.CertEntryOff+4:], uint32(len(tab)))
+			m = append(m, tab...)
+			all = append(all, sess{"img.session", hostile{m, "many-certificate-entries", "20000", "", "generated"}, map[string]string{"cert": fmt.Sprintf("%x", foreign.Raw)}})
 		}
 	}
 	// bare WIN_CERTIFICATE reader
